@@ -93,6 +93,8 @@ def units(tier, seed):
     ngpg = 40 if tier == 'quick' else 1200
     for i in range(ngpg):
         u.append({'k': 'gpg', 'i': i, 'n': 100})
+    for i in range(6 if tier == 'quick' else 100):
+        u.append({'k': 'reload', 'i': i})
     return u
 
 
@@ -329,12 +331,18 @@ def run_gpg(u, ctx):
 def run_unit(u, ctx):
     if u['k'] == 'seq':
         run_seq(u, ctx)
+    elif u['k'] == 'reload':
+        from vf.checks import c04gpg
+        c04gpg.run_reload(u, ctx)
     else:
         run_gpg(u, ctx)
 
 
 def replay(case, ctx):
-    if case.get('kind') == 'gpgtext':
+    if case.get('kind') == 'reload':
+        from vf.checks import c04gpg
+        c04gpg.run_reload({'i': 0}, ctx)
+    elif case.get('kind') == 'gpgtext':
         from vf.checks import c04gpg
         c04gpg.replay(case, ctx)
     else:
